@@ -278,6 +278,8 @@ fn pools(c13: bool) -> Vec<(Vec<&'static str>, Vec<&'static str>)> {
         (vec!["option", "option1", "Option", "option2", "Option1"], vec!["k", "v"]),
         (vec!["vec", "Vec1", "vec1", "string", "String1", "self", "Self1"], vec!["n"]),
         (vec!["row", "value", "Value", "RowValue1", "row_value", "RowValue"], vec!["id"]),
+        // a separator inside a name against the same string split over two nesting levels
+        (vec!["app.log", "app", "log.level", "log", "level"], vec!["value", "threshold"]),
     ];
     if !c13 {
         v.push((vec!["p:a", "q:b", "c", "p:d"], vec!["xmlns:p", "p:id", "id2", "xmlns:q", "q:k", "xmlns"]));
@@ -288,7 +290,7 @@ fn pools(c13: bool) -> Vec<(Vec<&'static str>, Vec<&'static str>)> {
 }
 
 pub fn run(ctx: &mut Ctx, c13: bool) {
-    let evals = vec![Eval { label: "tree", func: "ev_tree".into(), role: "corr" }, Eval { label: "bytes", func: "ev_bytes".into(), role: "corr" }, Eval { label: "reflects", func: "or_reflects".into(), role: "oracle" }, Eval { label: "wf", func: "or_wf".into(), role: "oracle" }];
+    let evals = vec![Eval { label: "bytes", func: "ev_bytes".into(), role: "corr" }, Eval { label: "reflects", func: "or_reflects".into(), role: "oracle" }, Eval { label: "wf", func: "or_wf".into(), role: "oracle" }];
     let mut sh = Shards::new(&ctx.out, "progs", DOC_IMPORTS, "doccase", evals, "show_case", 100);
     let mut hist = Hist::default();
     let mut samples: Vec<J> = vec![];
